@@ -158,7 +158,8 @@ def run(F, run, tier):
     for fn, clamped in (("spline_free", False), ("spline_clamped", True)):
         for kind, n in sets:
             check_spline(F, run, fn, clamped, kind, n)
-        check_spline(F, run, fn, clamped, "rational", 3, cplx=True)
+        for n_c in (3, 4) + ((5,) if tier == "thorough" else ()):       # 4 knots: the first count at which back-substitution multiplies a complex c[i+1] by a non-zero factor
+            check_spline(F, run, fn, clamped, "rational", n_c, cplx=True)
     # consequences
     b = F.fn("interp::spline::spline_clamped")
     q = PI.symbols("q", 4)
